@@ -178,7 +178,9 @@ def evaluate(case):
         return eval_graph(case)
     import logging
     import ak.ghist as G
-    logging.getLogger("ak.ghist").setLevel(logging.ERROR)    # 'references unknown version' warnings are expected
+    from vlib import core as _core
+    if not _core.debug_logs_active():
+        logging.getLogger("ak.ghist").setLevel(logging.ERROR)    # 'references unknown version' warnings are expected
     f = []
     classes = set()
     crepo = fakegit.FakeRepo(comp_spec(case))
